@@ -85,9 +85,18 @@ pub fn cmd_record(args: &[String]) {
             let kt = if !assoc && kt == "tup" { "arr" } else { kt };
             let k = key_ty(kt);
             let (ea, eb, a_vals, b_vals): (String, String, Vec<Value>, Vec<Value>) = if assoc {
-                (format!("({k}, u8)"), format!("({k}, u16)"),
-                 ka.iter().enumerate().map(|(i, x)| json!([key_lit(kt, *x).1, (i as u64 * 3 + 1) % 256])).collect(),
-                 kb.iter().enumerate().map(|(j, x)| json!([key_lit(kt, *x).1, 500 + j as u64])).collect())
+                // the widths of the associated data vary: first rows narrower, wider, and of another arity than the second rows
+                match case_no % 3 {
+                    0 => (format!("({k}, u8)"), format!("({k}, u16)"),
+                          ka.iter().enumerate().map(|(i, x)| json!([key_lit(kt, *x).1, (i as u64 * 3 + 1) % 256])).collect(),
+                          kb.iter().enumerate().map(|(j, x)| json!([key_lit(kt, *x).1, 500 + j as u64])).collect()),
+                    1 => (format!("({k}, u16)"), format!("({k}, u8)"),
+                          ka.iter().enumerate().map(|(i, x)| json!([key_lit(kt, *x).1, 40000 + i as u64 * 3])).collect(),
+                          kb.iter().enumerate().map(|(j, x)| json!([key_lit(kt, *x).1, (j as u64 * 7 + 2) % 256])).collect()),
+                    _ => (format!("({k}, u8, u16)"), format!("({k}, bool)"),
+                          ka.iter().enumerate().map(|(i, x)| json!([key_lit(kt, *x).1, (i as u64 * 3 + 1) % 256, 300 + i as u64])).collect(),
+                          kb.iter().enumerate().map(|(j, x)| json!([key_lit(kt, *x).1, (j % 2)])).collect()),
+                }
             } else {
                 (k.to_string(), k.to_string(), ka.iter().map(|x| key_lit(kt, *x).1).collect(), kb.iter().map(|x| key_lit(kt, *x).1).collect())
             };
